@@ -17,6 +17,9 @@ Definition tstep (_ : actor) (s : tstate) (m : tmsg) : tstate := s ++ [m].
 (** a payload is [16 * request number + class]:
     class 0 = a ConfigFullValue whose bytes do not decode *)
 Definition tclass (p : tpayload) : nat := p mod 16.
+(** bit 4 of the payload: the target's handler answers Err (e.g. TableManagerReq::SetUseAutoId,
+    RemoveToolSpec of a spec in use) *)
+Definition thandler_ok (p : tpayload) : bool := negb ((p / 16) mod 2 =? 1).
 Definition tdecodable (p : tpayload) : bool := negb (tclass p =? 0).
 
 (** class 7 sent to the table actor = a T_CACHE row in the old format: TableManager forwards the
@@ -116,7 +119,7 @@ Example last_applied_sample :
   es <> [] /\ forallb (prep_ok tpayload tdecodable) (map snd es) = true /\
   am_last (follower_applied tpayload tmsg tbuild tdecodable (split [2] es) (mkAm 4 [])) = 7%N /\
   am_saved (follower_applied tpayload tmsg tbuild tdecodable (split [2] es) (mkAm 4 [])) = [6%N; 7%N] /\
-  am_saved (leader_applied tpayload tmsg tbuild tdecodable es (mkAm 4 [])) = [5%N; 6%N; 7%N].
+  am_saved (leader_applied tpayload tmsg tbuild tdecodable thandler_ok es (mkAm 4 [])) = [5%N; 6%N; 7%N].
 Proof. repeat split. discriminate. Qed.
 
 Lemma poison_refuted :
